@@ -23,9 +23,14 @@
 (*                     copies it out (two sub-steps)                         *)
 (*   "tag-patched"     a step memoises something inside the tag record       *)
 (*   "shared-context"  the per-render loop context lives in a static         *)
+(*   "lazy-parse"      every render first parses into the shared tag array   *)
+(*                     when it finds it empty (Template::Render with a cache *)
+(*                     argument): fine for one render at a time, a write to  *)
+(*                     shared state when renders overlap - the documented    *)
+(*                     precondition "parse before the threads start"         *)
 (* The state graph of the "pure" variant is the set of schedules the harness *)
 (* forces on real threads (every path is replayed).                          *)
-EXTENDS Naturals, Sequences, FiniteSets, TLC
+EXTENDS Integers, Sequences, FiniteSets, TLC
 
 CONSTANTS Threads,     \* set of render ids
           K,           \* steps of each render
@@ -38,7 +43,7 @@ IsPrefix(s, t) == Len(s) <= Len(t) /\ SubSeq(t, 1, Len(s)) = s
 Chunk(t, k) == <<t, k>>
 Solo(t) == [k \in 1..K |-> Chunk(t, k)]
 
-Init == /\ pc = [t \in Threads |-> 0] /\ out = [t \in Threads |-> <<>>] /\ shared = 0
+Init == /\ pc = [t \in Threads |-> 0] /\ out = [t \in Threads |-> <<>>] /\ shared = (IF Variant = "lazy-parse" THEN 0 - 1 ELSE 0)
         /\ scratch = <<>> /\ ctx = [t \in Threads |-> t] /\ half = [t \in Threads |-> FALSE]
 
 \* the library's design: read shared, append to the own stream
@@ -62,7 +67,13 @@ CtxStep(t) == /\ pc[t] < K /\ pc' = [pc EXCEPT ![t] = @ + 1]
                  ELSE /\ out' = [out EXCEPT ![t] = Append(@, Chunk(ctx[t], pc[t] + 1))] /\ UNCHANGED ctx                \* {var:item}: read it
               /\ UNCHANGED <<shared, scratch, half>>
 
+\* the cache-filling overload: shared = 0 stands for "parsed", -1 for "still empty"
+LazyStep(t) == IF shared = 0 - 1 /\ pc[t] = 0
+               THEN /\ shared' = 0 /\ UNCHANGED <<pc, out, scratch, ctx, half>>       \* parse into the shared array
+               ELSE PureStep(t)
+
 Step(t) == CASE Variant = "pure" -> PureStep(t)
+             [] Variant = "lazy-parse" -> LazyStep(t)
              [] Variant = "static-scratch" -> Fill(t) \/ Flush(t)
              [] Variant = "tag-patched" -> PatchStep(t)
              [] Variant = "shared-context" -> CtxStep(t)
